@@ -12,7 +12,7 @@ CHECKS = {
          'Seeded executions of the real ZMQSender/ZMQReceiver/MQ/Filter.run on a simulated ZeroMQ with virtual time (topology families x behaviours x subscription forms x delay classes x faults: lost publishes, kill+restart, stalls, slow links, late joins). Every process() input of every consumer is mapped frame by frame to the publication it came from (unique provenance tokens, transport log) and checked for one message id, per-source completeness against the publisher\'s topic list and one original per origin at rejoins. Held = no set violated these on the executions explored; two restart-related mechanisms are recorded as known findings.',
          'The transport below the zmq API is simulated (calibrated against pyzmq, over-approximation rule of DESIGN 3.5); one thread runs at a time; topic names reaching one consumer are disjoint by construction.', '6 C01'),
  'C02': ('simnet', 'exploration',
-         'Same engine and scenario space with the content palette (data, nested data, raw BGR/RGB/GRAY, 1x1, jpg), outputs_jpg None/True/False and hidden topics on: per (consumer, origin incarnation) strictly increasing sequence over the whole consumer history across its restarts, every delivered frame compared with the frame regenerated from its token inside the consumer, delivered topic names within what the subscription allows.',
+         'Same engine and scenario space with the content palette (data, nested data, raw BGR/RGB/GRAY, 1x1, jpg), outputs_jpg None/True/False and hidden topics on: per (consumer, origin incarnation) strictly increasing sequence over the whole consumer history across its restarts, per (consumer incarnation, source) strictly increasing message ids of the delivered sets, every delivered frame compared with the frame regenerated from its token inside the consumer, delivered topic names within what the subscription allows.',
          'No-loss is not demanded (C03); ephemeral sources only non-decreasing; simulated transport as in C01.', '6 C02'),
  'C03': ('simnet', 'exploration',
          'Under the property\'s own assumptions enforced in virtual time (all synchronized, required outputs listed, delays < 100 ms, no faults, no skipping inside rejoined branches) an executable functional model of the pipeline gives the exact process() input sequence of every filter; the recorded histories are compared for equality (first frame included, nothing extra), incl. None, {}, lone Frame and callable results; callables must be evaluated once and in the same run slice as the publish.',
